@@ -55,6 +55,9 @@ class Ctx:
         self.step_no = 0
         self.notes: dict[str, Any] = {}
         self.state_sigs: set = set()
+        # (channel, ti, tf) of zero-amplitude pulses the *user* added, as
+        # opposed to automatically inserted detuned delays of the same shape
+        self.user_pulses: set = set()
 
     def probe(self, name: str, n: int = 1) -> None:
         self.stats["probe/" + name] += n
@@ -100,6 +103,11 @@ class Stepper:
             rec["err"] = (out.exc_msg or "")[:160]
         self.trace.append(rec)
         ctx.stats["steps"] += 1
+        if out.ok and op["op"] in ("add", "add_dmm_detuning", "add_eom_pulse"):
+            cs = post.channels.get(op.get("ch"))
+            if cs is not None and cs.slots and cs.slots[-1].kind == "ddelay":
+                s_ = cs.slots[-1]
+                ctx.user_pulses.add((cs.name, s_.ti, s_.tf))
         ctx.stats[f"op/{op['op']}/{out.status}"] += 1
         if tag:
             ctx.stats[f"fault/{tag.split('/')[0]}/fired"] += 1
